@@ -144,6 +144,10 @@ pub fn replay(args: &[String]) -> i32 {
         let observed = translate(&case["genes"]);
         if observed != case["prog"] {
             bad += 1;
+            // a wrong translation can be nested arbitrarily deep: report its depth instead of the tree
+            let text = observed.to_string();
+            let depth = text.bytes().fold((0i64, 0i64), |(d, m), b| match b { b'[' | b'{' => (d + 1, m.max(d + 1)), b']' | b'}' => (d - 1, m), _ => (d, m) }).1;
+            let observed = if depth > 120 { json!({"nested_too_deep_to_print": depth, "bytes": text.len()}) } else { observed };
             out.line(&json!({"kind": "mismatch", "case": case, "observed": observed}));
             // enough said: a translation that carries state from genome to genome gets slower and slower
             if bad >= 40 {
